@@ -267,6 +267,16 @@ Definition ecs_count (l : list eopt) : N := N.of_nat (length (filter is_ecs l)).
 Definition reply_ecs_counts (noedns trunc : bool) (resp : list (list eopt)) : list N :=
   if noedns then [] else [0].
 
+(* the byte path (ResponseWriter.WriteWire / appendWireOPT): the body arrives without an OPT and the
+   layer appends the per-client record it composes from its own facts only — server cookie (10) when
+   the client sent a cookie, NSID (3) when asked and configured, edns-tcp-keepalive (11) for a stream
+   client that sent it, an Extended DNS Error (15) handed down in WireInfo; nothing of the request OPT
+   (where the forwarded subnet option sits) is copied.  None = no OPT record (client sent none). *)
+Definition wire_reply_codes (noedns cookie nsid keepalive ede : bool) : option (list N) :=
+  if noedns then None
+  else Some ((if cookie then [10] else []) ++ (if nsid then [3] else []) ++
+             (if keepalive then [11] else []) ++ (if ede then [15] else [])).
+
 (* BADVERS: edns clears the options of the selected OPT and answers with that bare OPT alone
    (req.Extra = [opt]; Chain.CancelWithRcode copies req.Extra) *)
 Definition opt_ecs_counts (l : list rr) : list N :=
